@@ -16,7 +16,7 @@ import (
 func init() { reg.Register("route.mount", runMount) }
 
 type mstmt struct {
-	Kind    string   `json:"kind"` // m use usenp usemulti all | mount | group | cons | rebuild
+	Kind    string   `json:"kind"` // m use usenp usemulti all routechain | mount | group (Hs: Group(prefix, hs…)) | cons | rebuild
 	Methods []string `json:"methods,omitempty"`
 	Path    string   `json:"path,omitempty"`
 	Hs      []hspec  `json:"hs,omitempty"`
@@ -37,6 +37,9 @@ type mstmt struct {
 	Name string `json:"name,omitempty"`
 	// mount: the prefix is handed over as a list, Use([]string{…}, subApp). Prefix is its first entry.
 	PrefixList []string `json:"prefix_list,omitempty"`
+	// routechain: rt.Route(Chain[0]).Route(Chain[1])… then Add(Methods, hs…), or All(hs…) when
+	// Methods is empty (Route(path).All registers a prefix middleware)
+	Chain []string `json:"chain,omitempty"`
 }
 
 type subCfg struct {
@@ -57,6 +60,9 @@ type mprog struct {
 	// Shared: prefix lists kept in one slice variable each and passed to several Use calls
 	Shared [][]string `json:"shared_prefix_lists,omitempty"`
 	Root   []mstmt    `json:"root"`
+	// LateRoot: registered on the serving app after it has answered requests, followed by
+	// RebuildTree(); the requests are then served once more
+	LateRoot []mstmt `json:"late_root,omitempty"`
 }
 
 var mountPrefixes = []string{"/", "/api", "/api/", "/:v", "/a/b", "/Api", "/ab", "/abc", "/:Ver"}
@@ -196,10 +202,29 @@ var usePrefixPool = []string{"/", "/a", "/ab", "/api", "/:p", "/abc"}
 // route generates one registration. known: the custom constraints a route may name here (those
 // its app has registered so far, most recent last, and the root's initial ones).
 func (g *mgen) route(inSub bool, known []string) mstmt {
+	if g.r.Chance(1, 12) {
+		return g.routeChain(inSub)
+	}
 	s := g.routeStmt(inSub)
 	if (s.Kind == "m" || s.Kind == "all") && len(known) > 0 && g.r.Chance(1, 3) {
 		g.constrain(&s, gen.Pick(g.r, known))
 	}
+	return s
+}
+
+// routeChain: nested Route() calls, 1–3 levels, with trailing slashes and empty paths at the
+// inner levels.
+func (g *mgen) routeChain(inSub bool) mstmt {
+	r := g.r
+	g.budget--
+	s := mstmt{Kind: "routechain", Chain: []string{gen.Pick(r, []string{"/a", "/ab", "/api", "/abc/", "/:p", "/x/Y/", "/a/"})}}
+	for lvl := 0; lvl < 2 && r.Chance(1, 2); lvl++ {
+		s.Chain = append(s.Chain, gen.Pick(r, []string{"/d", "/users/", "", "/", "/:q", "x", "/abc/"}))
+	}
+	if r.Chance(3, 4) {
+		s.Methods = []string{gen.Pick(r, g.prog.methodPool())}
+	}
+	s.Hs = g.hs(inSub)
 	return s
 }
 
@@ -256,12 +281,15 @@ func (g *mgen) routeStmt(inSub bool) mstmt {
 		}
 	}
 	s.Hs = g.hs(inSub)
-	if s.Kind == "usenp" && inSub {
-		for _, h := range s.Hs {
-			g.subRootUse[h.ID] = true
-		}
-	}
 	return s
+}
+
+// markSubRootUse notes middleware that a mounted app registers without any prefix of its own
+// (Use(h), Group("", h)): the recorded strict-routing finding is about exactly these.
+func (g *mgen) markSubRootUse(s *mstmt) {
+	for _, h := range s.Hs {
+		g.subRootUse[h.ID] = true
+	}
 }
 
 // known: what a route of the app owning `own` may name.
@@ -289,7 +317,8 @@ func (g *mgen) unregistered(own []string) string {
 
 // body generates the statements of one router. own: the constraints registered so far on the app
 // that owns the router (shared by the app and its groups).
-func (g *mgen) body(depth int, inSub bool, own *[]string) []mstmt {
+// subRoot: the router is a mounted app itself or a chain of ""-prefixed groups on it.
+func (g *mgen) body(depth int, inSub bool, own *[]string, subRoot bool) []mstmt {
 	r := g.r
 	n := r.Range(1, 5)
 	var out []mstmt
@@ -300,7 +329,16 @@ func (g *mgen) body(depth int, inSub bool, own *[]string) []mstmt {
 			out = append(out, g.mount(depth))
 		case depth < 3 && r.Chance(1, 6):
 			grp := mstmt{Kind: "group", Prefix: gen.Pick(r, mountPrefixes)}
-			grp.Body = g.body(depth+1, inSub, own)
+			if r.Chance(1, 5) {
+				grp.Prefix = ""
+			}
+			if r.Chance(1, 3) {
+				grp.Hs = g.hs(inSub) // Group(prefix, middleware…)
+				if subRoot && grp.Prefix == "" {
+					g.markSubRootUse(&grp)
+				}
+			}
+			grp.Body = g.body(depth+1, inSub, own, subRoot && grp.Prefix == "")
 			out = append(out, grp)
 		case r.Chance(1, 10):
 			if name := g.unregistered(*own); name != "" {
@@ -310,7 +348,11 @@ func (g *mgen) body(depth int, inSub bool, own *[]string) []mstmt {
 			// RebuildTree() on the serving app, the documented call after routes were added
 			out = append(out, mstmt{Kind: "rebuild"})
 		default:
-			out = append(out, g.route(inSub, g.known(*own)))
+			s := g.route(inSub, g.known(*own))
+			if s.Kind == "usenp" && subRoot {
+				g.markSubRootUse(&s)
+			}
+			out = append(out, s)
 		}
 	}
 	return out
@@ -357,11 +399,15 @@ func (g *mgen) mount(depth int) mstmt {
 			}
 		}
 	}
-	m.Body = append(m.Body, g.body(depth+1, true, &own)...)
+	m.Body = append(m.Body, g.body(depth+1, true, &own, true)...)
 	if r.Chance(1, 3) {
 		k := r.Range(1, 2)
 		for j := 0; j < k; j++ {
-			m.Late = append(m.Late, g.route(true, g.known(own)))
+			s := g.route(true, g.known(own))
+			if s.Kind == "usenp" {
+				g.markSubRootUse(&s)
+			}
+			m.Late = append(m.Late, s)
 		}
 	}
 	return m
@@ -408,6 +454,16 @@ func mApplyRoute(rt fiber.Router, s *mstmt, tr *mtrace, shared [][]string) {
 		hs[i] = mHandler(tr, h)
 	}
 	switch s.Kind {
+	case "routechain":
+		rg := rt.Route(s.Chain[0])
+		for _, c := range s.Chain[1:] {
+			rg = rg.Route(c)
+		}
+		if len(s.Methods) > 0 {
+			rg.Add(s.Methods, hs[0], hs[1:]...)
+		} else {
+			rg.All(hs[0], hs[1:]...)
+		}
 	case "usemulti":
 		pf := append([]string(nil), s.Prefixes...)
 		if shared != nil && s.Share > 0 {
@@ -423,6 +479,15 @@ func mApplyRoute(rt fiber.Router, s *mstmt, tr *mtrace, shared [][]string) {
 	case "usenp":
 		rt.Use(anyHs(hs[0], hs[1:])...)
 	}
+}
+
+// mGroup opens the group of a group statement, with its middleware if it has any.
+func mGroup(rt fiber.Router, s *mstmt, tr *mtrace) fiber.Router {
+	hs := make([]fiber.Handler, len(s.Hs))
+	for i, h := range s.Hs {
+		hs[i] = mHandler(tr, h)
+	}
+	return rt.Group(s.Prefix, hs...)
 }
 
 // mApplyMeta performs the statements that register no handlers. owner: the app owning the
@@ -478,7 +543,7 @@ func buildMounted(p *mprog, tr *mtrace, allOnRoot bool) *fiber.App {
 					})
 				}
 			case "group":
-				build(rt.Group(s.Prefix), owner, s.Body)
+				build(mGroup(rt, s, tr), owner, s.Body)
 			default:
 				mApplyRoute(rt, s, tr, shared)
 			}
@@ -510,7 +575,7 @@ func buildFlat(p *mprog, tr *mtrace) *fiber.App {
 					mApplyRoute(g, &s.Late[j], tr, nil)
 				}
 			case "group":
-				build(rt.Group(s.Prefix), s.Body)
+				build(mGroup(rt, s, tr), s.Body)
 			default:
 				mApplyRoute(rt, s, tr, nil)
 			}
@@ -534,7 +599,7 @@ func buildGrouped(p *mprog, tr *mtrace) *fiber.App {
 				continue
 			}
 			if s.Kind == "group" {
-				build(rt.Group(s.Prefix), s.Body)
+				build(mGroup(rt, s, tr), s.Body)
 			} else {
 				mApplyRoute(rt, s, tr, shared)
 			}
@@ -554,10 +619,25 @@ func buildSpelled(p *mprog, tr *mtrace) *fiber.App {
 				continue
 			}
 			if s.Kind == "group" {
-				build(joinPrefix(prefix, s.Prefix), s.Body)
+				full := joinPrefix(prefix, s.Prefix)
+				if len(s.Hs) > 0 {
+					// Group(prefix, mw…) = the middleware registered under the group's full prefix
+					mApplyRoute(app, &mstmt{Kind: "use", Path: full, Hs: s.Hs}, tr, nil)
+				}
+				build(full, s.Body)
 				continue
 			}
 			switch s.Kind {
+			case "routechain":
+				full := joinPrefix(prefix, s.Chain[0])
+				for _, c := range s.Chain[1:] {
+					full = joinPrefix(full, c)
+				}
+				if len(s.Methods) > 0 {
+					s = mstmt{Kind: "m", Methods: s.Methods, Path: full, Hs: s.Hs}
+				} else {
+					s = mstmt{Kind: "use", Path: full, Hs: s.Hs}
+				}
 			case "usenp":
 				if prefix != "" {
 					s.Kind = "use"
@@ -584,6 +664,9 @@ func buildSpelled(p *mprog, tr *mtrace) *fiber.App {
 func joinPrefix(prefix, path string) string {
 	if prefix == "" {
 		return path
+	}
+	if path == "" {
+		return prefix // an empty sub-path names the prefix itself, as written
 	}
 	return strings.TrimRight(prefix, "/") + "/" + strings.TrimLeft(path, "/")
 }
@@ -703,8 +786,9 @@ func handlerShapes(p *mprog) map[int]string {
 				walk(s.Late, ch, true)
 			case "group":
 				walk(s.Body, chain, late)
+				fallthrough // the group's own middleware
 			default:
-				if len(chain) == 0 {
+				if len(chain) == 0 || len(s.Hs) == 0 {
 					continue
 				}
 				// the mount that owns the handler; outer mounts only add "nested"
@@ -761,6 +845,7 @@ func checkMounted(e *ev.Env, c *ev.Case, p *mprog, g *mgen, reqs [][2]string) {
 	}
 	// input class of a difference: the mounts leading to the first handler that ran in only one
 	// composition (or, when no handler of a mounted app is involved, what ran at all)
+	stageClass := ""
 	hshapes := handlerShapes(p)
 	progClass := ""
 	if hasKind(p.Root, "rebuild") {
@@ -774,21 +859,21 @@ func checkMounted(e *ev.Env, c *ev.Case, p *mprog, g *mgen, reqs [][2]string) {
 		for _, recs := range [][]mrec{a, b} {
 			if i < len(recs) {
 				if sh, ok := hshapes[recs[i].ID]; ok {
-					return sh + progClass
+					return sh + progClass + stageClass
 				}
 			}
 		}
 		for _, recs := range [][]mrec{a, b} {
 			for j := len(recs) - 1; j >= 0; j-- {
 				if sh, ok := hshapes[recs[j].ID]; ok {
-					return sh + progClass
+					return sh + progClass + stageClass
 				}
 			}
 		}
 		if len(a) == 0 && len(b) == 0 {
-			return "no-handler-ran" + progClass
+			return "no-handler-ran" + progClass + stageClass
 		}
-		return "handlers-outside-mounted-apps" + progClass
+		return "handlers-outside-mounted-apps" + progClass + stageClass
 	}
 	// Use([]string{a, b, …}, subApp) with several entries has no documented meaning: such
 	// programs are run and their differences to the first-entry reading counted, not reported
@@ -796,78 +881,104 @@ func checkMounted(e *ev.Env, c *ev.Case, p *mprog, g *mgen, reqs [][2]string) {
 	if !judged {
 		e.Stat("trees_mounting_with_a_multi_entry_prefix_list_not_judged", 1)
 	}
-	for _, rq := range reqs {
-		m, path := rq[0], rq[1]
-		trA.recs, trB.recs = nil, nil
-		var ra, rb *drive.Resp
-		if e.Guard(c, "mount|dispatch-mounted", map[string]any{"program": p, "method": m, "path": path}, func() { ra = do(dA, m, path) }) {
-			continue
-		}
-		if e.Guard(c, "mount|dispatch-flat", map[string]any{"program": p, "method": m, "path": path}, func() { rb = do(dB, m, path) }) {
-			continue
-		}
-		if !judged {
-			if ok, _ := recsEqual(trA.recs, trB.recs); !ok || ra.Status != rb.Status || string(ra.Body) != string(rb.Body) {
-				e.Stat("multi_entry_prefix_list_mount_differs_from_first_entry_reading", 1)
-			}
-			continue
-		}
-		e.Eval(1)
-		if subTrace(trB.recs, g.inSub) || subTrace(trA.recs, g.inSub) {
-			e.Nontrivial(c.ID, m, path)
-		}
-		detail := func() map[string]any {
-			return map[string]any{"program": p, "method": m, "path": path,
-				"mounted": map[string]any{"trace": trA.recs, "status": ra.Status, "body": string(ra.Body)},
-				"grouped": map[string]any{"trace": trB.recs, "status": rb.Status, "body": string(rb.Body)}}
-		}
-		consLost := func(what string) bool {
-			if dC == nil {
-				return false
-			}
-			trC.recs = nil
-			var rc *drive.Resp
-			if e.Guard(c, "mount|dispatch-mounted", map[string]any{"program": p, "method": m, "path": path, "constraints_on_root_too": true}, func() { rc = do(dC, m, path) }) {
-				return false
-			}
-			// same mounted tree, same request: only the root's knowledge of the constraints differs
-			if ok, _ := recsEqual(trC.recs, trA.recs); ok && rc.Status == ra.Status && string(rc.Body) == string(ra.Body) {
-				return false
-			}
-			d := detail()
-			d["mounted_with_constraints_registered_on_root_too"] = map[string]any{"trace": trC.recs, "status": rc.Status, "body": string(rc.Body)}
-			e.Violation(c, "mount|custom-constraint-of-sub-app-not-enforced",
-				fmt.Sprintf("%s %s: mounted composition and Group(prefix) composition differ in %s; a mounted app registers custom constraints of its own, and the mounted composition answers differently once the root registers them too", m, path, what), d)
-			return true
-		}
-		if ok, what := recsEqual(trA.recs, trB.recs); !ok {
-			// first handler on which the two traces part
-			i := 0
-			for i < len(trA.recs) && i < len(trB.recs) && trA.recs[i].ID == trB.recs[i].ID {
-				i++
-			}
-			if consLost(what) {
-				continue
-			}
-			if what == "trace" && p.Cfg.Strict {
-				if i < len(trB.recs) && g.subRootUse[trB.recs[i].ID] {
-					e.Violation(c, "mount|strict-routing|prefixless-use-of-mounted-app-requires-slash-after-mount-path",
-						fmt.Sprintf("StrictRouting: %s %s skips the mounted app's Use(h) middleware h%d, which Group(prefix).Use(h) runs", m, path, trB.recs[i].ID), detail())
-					continue
-				}
-			}
-			e.Violation(c, "mount|"+what+"-differs|"+shapeOf(trA.recs, trB.recs),
-				fmt.Sprintf("%s %s: mounted composition and Group(prefix) composition differ in %s", m, path, what), detail())
-			continue
-		}
-		if ra.Status != rb.Status || string(ra.Body) != string(rb.Body) {
-			if consLost("response") {
-				continue
-			}
-			e.Violation(c, "mount|response-differs|"+shapeOf(trA.recs, trB.recs),
-				fmt.Sprintf("%s %s: mounted composition answers %d %q, Group(prefix) composition %d %q", m, path, ra.Status, ra.Body, rb.Status, rb.Body), detail())
+	var runOne func(m, path string)
+	run := func() {
+		for _, rq := range reqs {
+			runOne(rq[0], rq[1])
 		}
 	}
+	runOne = func(m, path string) {
+		for once := true; once; once = false {
+			trA.recs, trB.recs = nil, nil
+			var ra, rb *drive.Resp
+			if e.Guard(c, "mount|dispatch-mounted", map[string]any{"program": p, "method": m, "path": path}, func() { ra = do(dA, m, path) }) {
+				continue
+			}
+			if e.Guard(c, "mount|dispatch-flat", map[string]any{"program": p, "method": m, "path": path}, func() { rb = do(dB, m, path) }) {
+				continue
+			}
+			if !judged {
+				if ok, _ := recsEqual(trA.recs, trB.recs); !ok || ra.Status != rb.Status || string(ra.Body) != string(rb.Body) {
+					e.Stat("multi_entry_prefix_list_mount_differs_from_first_entry_reading", 1)
+				}
+				continue
+			}
+			e.Eval(1)
+			if subTrace(trB.recs, g.inSub) || subTrace(trA.recs, g.inSub) {
+				e.Nontrivial(c.ID, m, path)
+			}
+			detail := func() map[string]any {
+				return map[string]any{"program": p, "method": m, "path": path,
+					"mounted": map[string]any{"trace": trA.recs, "status": ra.Status, "body": string(ra.Body)},
+					"grouped": map[string]any{"trace": trB.recs, "status": rb.Status, "body": string(rb.Body)}}
+			}
+			consLost := func(what string) bool {
+				if dC == nil {
+					return false
+				}
+				trC.recs = nil
+				var rc *drive.Resp
+				if e.Guard(c, "mount|dispatch-mounted", map[string]any{"program": p, "method": m, "path": path, "constraints_on_root_too": true}, func() { rc = do(dC, m, path) }) {
+					return false
+				}
+				// same mounted tree, same request: only the root's knowledge of the constraints differs
+				if ok, _ := recsEqual(trC.recs, trA.recs); ok && rc.Status == ra.Status && string(rc.Body) == string(ra.Body) {
+					return false
+				}
+				d := detail()
+				d["mounted_with_constraints_registered_on_root_too"] = map[string]any{"trace": trC.recs, "status": rc.Status, "body": string(rc.Body)}
+				e.Violation(c, "mount|custom-constraint-of-sub-app-not-enforced",
+					fmt.Sprintf("%s %s: mounted composition and Group(prefix) composition differ in %s; a mounted app registers custom constraints of its own, and the mounted composition answers differently once the root registers them too", m, path, what), d)
+				return true
+			}
+			if ok, what := recsEqual(trA.recs, trB.recs); !ok {
+				// first handler on which the two traces part
+				i := 0
+				for i < len(trA.recs) && i < len(trB.recs) && trA.recs[i].ID == trB.recs[i].ID {
+					i++
+				}
+				if consLost(what) {
+					continue
+				}
+				if what == "trace" && p.Cfg.Strict {
+					if i < len(trB.recs) && g.subRootUse[trB.recs[i].ID] {
+						e.Violation(c, "mount|strict-routing|prefixless-use-of-mounted-app-requires-slash-after-mount-path",
+							fmt.Sprintf("StrictRouting: %s %s skips the mounted app's Use(h) middleware h%d, which Group(prefix).Use(h) runs", m, path, trB.recs[i].ID), detail())
+						continue
+					}
+				}
+				e.Violation(c, "mount|"+what+"-differs|"+shapeOf(trA.recs, trB.recs),
+					fmt.Sprintf("%s %s: mounted composition and Group(prefix) composition differ in %s", m, path, what), detail())
+				continue
+			}
+			if ra.Status != rb.Status || string(ra.Body) != string(rb.Body) {
+				if consLost("response") {
+					continue
+				}
+				e.Violation(c, "mount|response-differs|"+shapeOf(trA.recs, trB.recs),
+					fmt.Sprintf("%s %s: mounted composition answers %d %q, Group(prefix) composition %d %q", m, path, ra.Status, ra.Body, rb.Status, rb.Body), detail())
+			}
+		}
+	}
+	run()
+	if len(p.LateRoot) == 0 || !judged {
+		return
+	}
+	// routes added to the running app (the same calls on every composition), then RebuildTree()
+	late := func(d *drive.Direct, tr *mtrace) bool {
+		return e.Guard(c, "mount|late-registration-on-serving-app", p, func() {
+			for i := range p.LateRoot {
+				mApplyRoute(d.App, &p.LateRoot[i], tr, nil)
+			}
+			d.App.RebuildTree()
+		})
+	}
+	if late(dA, trA) || late(dB, trB) || (dC != nil && late(dC, trC)) {
+		return
+	}
+	stageClass = "+routes-added-to-serving-app-after-start"
+	e.Stat("trees_with_routes_added_after_start", 1)
+	run()
 }
 
 func hasMultiEntryListMount(b []mstmt) bool {
@@ -989,7 +1100,7 @@ func runMount(e *ev.Env) {
 		genProgOptions(r, p)
 		g := newMgen(r, p, 14)
 		rootOwn := append([]string(nil), p.RootCons...)
-		p.Root = g.body(0, false, &rootOwn)
+		p.Root = g.body(0, false, &rootOwn, false)
 		if g.mounts == 0 {
 			g.mounts++
 			p.Root = append(p.Root, g.mount(1))
@@ -997,6 +1108,24 @@ func runMount(e *ev.Env) {
 		// an application that calls RebuildTree() once its registration is complete
 		if r.Chance(1, 4) {
 			p.Root = append(p.Root, mstmt{Kind: "rebuild"})
+		}
+		// routes added to the running app: mostly parameterised paths that overlap mounted routes,
+		// on any method
+		if r.Chance(1, 3) {
+			k := r.Range(1, 3)
+			for i := 0; i < k; i++ {
+				s := g.routeStmt(false)
+				for s.Kind == "usemulti" || s.Kind == "usenp" {
+					s = g.routeStmt(false)
+				}
+				if r.Chance(2, 3) {
+					s.Path = gen.Pick(r, []string{"/api/:p", "/:v/:p", "/a/b/:p", "/ab/:p", "/abc/:p", "/api/*", "/:p/:q", "/:p", "/*", "/Api/:p", "/:p/a"})
+				}
+				if s.Kind == "m" && r.Chance(1, 2) {
+					s.Methods = []string{gen.Pick(r, []string{"POST", "PUT", "POST", "GET"})}
+				}
+				p.LateRoot = append(p.LateRoot, s)
+			}
 		}
 		nreq := e.N(40, 60)
 		segs := []string{"", "/a", "/ab", "/abc", "/x", "/api", "/Api", "/a/b", "/v1", "/abc/d", "/", "/a:b", "/x*", "/ab+", "/Ab", "/AB", "/x/Y"}
@@ -1050,7 +1179,12 @@ func runMount(e *ev.Env) {
 			var out []mstmt
 			for i := 0; i < n && g.budget > 0; i++ {
 				if depth < 3 && r.Chance(1, 3) {
-					out = append(out, mstmt{Kind: "group", Prefix: gen.Pick(r, []string{"/api", "/:v", "/a/b", "/Api", "/ab", "/abc", "/api/", "/a/b/", "/:Ver"}), Body: body(depth + 1)})
+					grp := mstmt{Kind: "group", Prefix: gen.Pick(r, []string{"/api", "/:v", "/a/b", "/Api", "/ab", "/abc", "/api/", "/a/b/", "/:Ver", "", "/", "/v1/"})}
+					if r.Chance(1, 3) {
+						grp.Hs = g.hs(true) // Group(prefix, middleware…)
+					}
+					grp.Body = body(depth + 1)
+					out = append(out, grp)
 					continue
 				}
 				if r.Chance(1, 12) {
@@ -1067,6 +1201,8 @@ func runMount(e *ev.Env) {
 				// paths may be spelled without their leading slash ("users" under "/api/")
 				if depth > 0 && len(s.Path) > 1 && s.Kind != "usemulti" && s.ConsKind == "" && r.Chance(1, 4) {
 					s.Path = s.Path[1:]
+				} else if depth > 0 && (s.Kind == "m" || s.Kind == "all" || s.Kind == "use") && s.ConsKind == "" && r.Chance(1, 6) {
+					s.Path = "" // grp.Get("", h): the group's prefix itself
 				}
 				out = append(out, s)
 			}
